@@ -140,8 +140,33 @@ func (sc *Scenario) runSchedule(prefix, prefixN []uint8, hb bool, prune func(uin
 		}()
 		var parts, details []string
 		blocked := map[string]bool{}
+		waitFor := map[int]int{}
 		for _, b := range jr.Blocked {
 			blocked[b.Name] = true
+			waitFor[b.ID] = b.WaitFor
+		}
+		// the signature names the threads on a wait-for cycle (mutex owners); threads that merely queue behind a
+		// member of the cycle are bystanders and only appear in the detail. Without such a cycle (waits on channels,
+		// wait groups) every blocked thread is named.
+		inCycle := map[int]bool{}
+		for id := range waitFor {
+			seen := map[int]bool{}
+			cur := id
+			for {
+				nx, ok := waitFor[cur]
+				if !ok || nx < 0 {
+					break
+				}
+				if seen[cur] {
+					// cur is on a cycle: mark it all
+					for c := cur; !inCycle[c]; c = waitFor[c] {
+						inCycle[c] = true
+					}
+					break
+				}
+				seen[cur] = true
+				cur = nx
+			}
 		}
 		for _, t := range vrt.Threads() {
 			if t.Stack == "" || !blocked[t.Name] {
@@ -149,8 +174,16 @@ func (sc *Scenario) runSchedule(prefix, prefixN []uint8, hb bool, prune func(uin
 			}
 			fr := vrt.FrameSummary(t.Stack, 4)
 			if len(fr) > 0 {
+				role := ""
+				if len(inCycle) > 0 {
+					if !inCycle[t.ID] {
+						details = append(details, fmt.Sprintf("%s (queued behind the cycle) blocked in %s", t.Name, strings.Join(fr, " <- ")))
+						continue
+					}
+					role = " (on the cycle)"
+				}
 				parts = append(parts, frameSig(fr))
-				details = append(details, fmt.Sprintf("%s blocked in %s", t.Name, strings.Join(fr, " <- ")))
+				details = append(details, fmt.Sprintf("%s%s blocked in %s", t.Name, role, strings.Join(fr, " <- ")))
 			}
 		}
 		sort.Strings(parts)
